@@ -90,6 +90,17 @@ class C13(vlib.Check):
             form = rng.choice(["smiles", "smiles", "explicit-h", "no-h"])
             self.count("input:" + form)
             yield {"t": "gen", "smiles": rng.choice(NO_H_SMILES) if form == "no-h" else rng.choice(SMILES), "opts": o, "input": form}
+        # stereochemistry carried by a hydrogen atom (N-H imines, H/D-labelled centres): "the same molecule" includes it;
+        # inputs that are valid but not in RDKit's normalised form (Kekule rings, pentavalent nitro): the input stays as given
+        special = [("[H]/N=C(/C)CC", "smiles"), ("[H]/N=C(\\C)c1ccccc1", "smiles"), ("[2H][C@H](O)CC", "smiles"), ("[2H][C@@H](F)Cl", "smiles"),
+                   ("Cc1ccccc1O", "kekule"), ("c1ccc2ccccc2c1", "kekule"), ("CCN(=O)=O", "unsanitised"), ("O=N(=O)c1ccccc1", "unsanitised")]
+        for k in range(4 if self.tier == "quick" else len(special) * 2):
+            quick_pick = [self.seed % 4, 4 + self.seed % 2, 6 + self.seed % 2, (self.seed + 2) % 4]
+            smi, form = special[quick_pick[k]] if self.tier == "quick" else special[k % len(special)]
+            self.count("input:" + ("h-stereo" if form == "smiles" else form))
+            yield {"t": "gen", "smiles": smi, "input": form,
+                   "opts": {"num_conf": 4, "first": -1, "pool_multiplier": 1, "rmsd_cutoff": 0.5, "max_energy_diff": None,
+                            "forcefield": "uff", "seed": 7}}
         for k in range(2 if self.tier == "quick" else 6):
             self.count("input:highly-symmetric")
             yield {"t": "gen", "smiles": SYM_SMILES[k % len(SYM_SMILES)], "input": "smiles",
@@ -118,6 +129,13 @@ class C13(vlib.Check):
             mol.SetProp("_Name", "m")
         elif case.get("input") == "no-h":
             AllChem.EmbedMolecule(mol, randomSeed=11)
+        elif case.get("input") == "kekule":
+            # a legitimate molecule that is not in RDKit's sanitised form: Kekule structure with the aromatic flags cleared
+            Chem.Kekulize(mol, clearAromaticFlags=True)
+        elif case.get("input") == "unsanitised":
+            mol = Chem.MolFromSmiles(case["smiles"], sanitize=False)
+            mol.UpdatePropertyCache(strict=False)
+            mol.SetProp("_Name", "m")
         return mol
 
     def _gen(self, case):
